@@ -1240,6 +1240,14 @@ def c18(tier, seed):
     py_env_gen(ck, "py_env_toggle", seeds=2 if q else 4, StepSize=3, Ops=["new", "step", "disable", "enable"], Kinds=["L", "M"],
                Prices=[10], Vols=[1], MaxSubmits=2 if q else 3, MaxBatch=2, MaxSteps=2, MaxOrders=2,
                need=("op_disable", "has_trade"), timeout=400 if q else 1800)
+    # environments and books CONSTRUCTED with trading disabled: the first switch is then an enable
+    py_env_gen(ck, "py_env_toggle_off0", seeds=2 if q else 4, StepSize=3, Trading0=False, Ops=["new", "step", "disable", "enable"], Kinds=["L", "M"],
+               Prices=[10], Vols=[1], MaxSubmits=2 if q else 3, MaxBatch=2, MaxSteps=2, MaxOrders=2,
+               need=("op_enable", "has_trade"), timeout=400 if q else 1800)
+    py_env_gen(ck, "py_numpy_toggle_off0", mode="numpy", seeds=2, StepSize=3, Trading0=False, Ops=["new", "step", "disable", "enable"], Kinds=["L"],
+               Prices=[10], Vols=[1], MaxSubmits=2, MaxBatch=2, MaxSteps=2, MaxOrders=2, need=("op_enable", "has_trade"), timeout=400 if q else 1800)
+    py_book_gen(ck, "py_book_toggle_off0", Ops=["cap", "disable", "enable"], Trading0=False, Prices=[10], Vols=[1], Kinds=["L", "M"],
+                MaxOrders=3, MaxOps=4, need=("op_enable", "has_trade"), timeout=300 if q else 1500)
     # long random call sequences through the Python OrderBook, validated by TLC against the same trace specification
     # as the Rust recorder's (BookTrace.tla, Python clauses)
     py_traces(ck, "py_rand_book", "book", files=4 if q else 32, runs=3 if q else 6, ops=150)
